@@ -309,11 +309,14 @@ def lean_side(rep: Report, prop: str, regen=None):
     """Regenerate translated models (if any), build the property's theorems, audit.
     Returns (ok, reason).  Never reports a violation by itself."""
     reasons = []
-    if regen:
-        try:
+    try:
+        sys.path.insert(0, os.path.join(VERIF, 'tools'))
+        import regen as _regen
+        _regen.main()
+        if regen:
             regen(rep)
-        except Exception as e:  # translator rejected the source
-            reasons.append('translator: %r' % (e,))
+    except Exception as e:  # translator rejected the source
+        reasons.append('translator: %r' % (e,))
     ok, log, secs = lake_build(['Props.' + prop])
     rep.coverage['lake_build_s'] = round(secs, 1)
     names = theorem_names(prop)
